@@ -40,8 +40,10 @@ def gen_action(r):
         return (r.choice(SEL), None)
     if k < 0.965:
         return ('toggle-sort', None)
-    if k < 0.985:
+    if k < 0.98:
         return (r.choice(['exclude', 'exclude-multi']), None)
+    if k < 0.992:
+        return (r.choice(['toggle-input', 'hide-input', 'show-input', 'toggle-input']), None)
     return ('print', r.choice(['x', 'hello']))
 
 
@@ -140,6 +142,23 @@ def tmpl_exclude_keeps(r, lines):
     return steps
 
 
+def tmpl_hidden_input(r, lines):
+    # while the input section is hidden nothing changes the query (whatever the action), the kill
+    # buffer still fills, and the list has the rows of the input section
+    steps = [[('change-query', r.choice(['a', 'ab', 'foo bar', 'o']))], [(r.choice(['backward-char', 'beginning-of-line', 'backward-word']), None)]]
+    steps.append([(r.choice(['hide-input', 'toggle-input']), None)])
+    for _ in range(r.randint(2, 5)):
+        steps.append([r.choice([('put', 'x'), ('change-query', 'zz'), ('clear-query', None), ('kill-line', None), ('unix-line-discard', None),
+                                ('backward-delete-char', None), ('yank', None), ('page-down', None), ('last', None), ('page-up', None), ('down', None),
+                                ('replace-query', None), ('backward-kill-word', None)])])
+    if r.random() < 0.5:
+        steps.append([('show-input', None), ('put', 'q'), ('hide-input', None), ('put', 'r')])
+    steps.append([(r.choice(['show-input', 'toggle-input']), None)])
+    steps.append([r.choice([('yank', None), ('put', 'y'), ('backward-delete-char', None)])])
+    steps.append([(r.choice(['page-down', 'last', 'up']), None)])
+    return steps
+
+
 def tmpl_burst(r, lines):
     # several selections inside one action list: selection order must still be the order of the toggles
     acts = []
@@ -154,7 +173,7 @@ def gen_session(r, tier, force=None):
     lines = [r.choice(WORDS) + (r.choice(['', ' ', '/']) + r.choice(WORDS) if r.random() < 0.4 else '') for _ in range(n)]
     opts = dict(multi=r.choice([0, 0, 1, 2, 3, 1000]), cycle=int(r.random() < 0.35), layout=r.choice(['default', 'default', 'reverse', 'reverse-list']),
                 rows=r.choice([5, 6, 8, 12, 24]), cols=r.choice([40, 60, 80]), tac=int(r.random() < 0.2), nosort=int(r.random() < 0.15),
-                printq=int(r.random() < 0.25), exact=int(r.random() < 0.15), track=int(r.random() < 0.2))
+                printq=int(r.random() < 0.25), exact=int(r.random() < 0.15), track=int(r.random() < 0.2), noinput=int(r.random() < 0.08))
     nsteps = r.randint(3, 30 if tier == 'quick' else 120)
     steps = []
     for _ in range(nsteps):
@@ -162,14 +181,16 @@ def gen_session(r, tier, force=None):
         steps.append([gen_action(r) for _ in range(k)])
     k = r.random()
     if k < 0.5 or force:
-        tmpl = r.choice([tmpl_selection, tmpl_selection, tmpl_kill_ring, tmpl_kill_ring, tmpl_burst, tmpl_track, tmpl_track, tmpl_exclude_keeps, tmpl_exclude_keeps])
+        tmpl = r.choice([tmpl_selection, tmpl_selection, tmpl_kill_ring, tmpl_kill_ring, tmpl_burst, tmpl_track, tmpl_track, tmpl_exclude_keeps, tmpl_exclude_keeps, tmpl_hidden_input])
         if force:
             tmpl = force
         if tmpl is tmpl_track:
             opts['track'] = 1
             if len(lines) < 5:
                 lines += [r.choice(WORDS) for _ in range(6)]
-        if tmpl is not tmpl_kill_ring and opts['multi'] == 0:
+        if tmpl in (tmpl_kill_ring, tmpl_hidden_input):
+            opts['noinput'] = 0
+        if tmpl not in (tmpl_kill_ring, tmpl_hidden_input) and opts['multi'] == 0:
             opts['multi'] = r.choice([2, 3, 1000])
         if tmpl is tmpl_exclude_keeps:
             opts['tac'] = 0
@@ -210,6 +231,8 @@ def session_args(o):
         a.append('--exact')
     if o.get('track'):
         a.append('--track')
+    if o.get('noinput'):
+        a.append('--no-input')
     return a
 
 
@@ -277,7 +300,7 @@ def drv_sessions(tier, seed, ctx):
     n = 40 if tier == 'quick' else 600
     r = random.Random(seed * 104729 + 7)
     # every directed template is used by at least three sessions of any run
-    tm = [tmpl_selection, tmpl_kill_ring, tmpl_burst, tmpl_track, tmpl_exclude_keeps]
+    tm = [tmpl_selection, tmpl_kill_ring, tmpl_burst, tmpl_track, tmpl_exclude_keeps, tmpl_hidden_input]
     scs = [gen_session(r, tier, force=tm[i % len(tm)] if i < 3 * len(tm) else None) for i in range(n)]
     notes = []
 
